@@ -99,7 +99,10 @@ func cacheGen(r *Rng, i int, cfg int, tier string) []string {
 			u := used[r.Intn(len(used))]
 			cf = append(cf, "C", u.site)
 			cf = append(cf, strList(u.ids)...)
-			cf = append(cf, r.Pick([]string{"", "{", "garbage", "{\"values\":[{\"value\":\"planted\",\"display\":\"planted\"}]}", "{\"values\":5}", "null", "[]"}))
+			planted := "{\"values\":[{\"value\":\"planted\",\"display\":\"planted\"}]}"
+			full := string(marshalExport("/", "u", nil, []rawSpec{{"p1", "p1", "d", "", ""}, {"p2", "p2", "", "red", "t"}}))
+			cf = append(cf, r.Pick([]string{"", "{", "garbage", planted, "{\"values\":5}", "null", "[]",
+				planted + "x", planted + " \n", planted + "}", full + "\"},{\"value\":\"stale\"}]}", full[:len(full)/2], full[:len(full)-1], full + full, " " + full}))
 			note("op=corrupt")
 		case len(used) > 0:
 			u := used[r.Intn(len(used))]
